@@ -185,6 +185,7 @@ theorem Inv.of_frame {s s' : St} (hI : Inv s) (hf : Frame s s') (hix : IdxOk s')
   bm_in := by rw [hf.bmOffBlk, hf.bmLenBlk, hf.nbits]; exact hI.bm_in
   bmoff_al := by rw [hf.bmoff, hf.bsz]; exact hI.bmoff_al
   bmlen_al := by rw [hf.bmlen, hf.bsz]; exact hI.bmlen_al
+  bmlen_pos := by rw [hf.bmLenBlk]; exact hI.bmlen_pos
   au := by rw [hf.aunitBlk]; exact hI.au
 
 /-- release of an allocated range outside header and bitmap preserves the invariant -/
